@@ -30,8 +30,8 @@ for name in sorted(os.listdir(ROOT)):
 
 with open(os.path.join(ROOT, "README.md"), "w") as f:
     f.write("# Seeded changes\n\n"
-            "Changes to jawher/mow.cli seeded in sixteen rounds (A/B: two per property; C/D: a third round on thirteen\n"
-            "properties; E/F, G/H, J/K, L/M, N/P, Q/R, S/T, U/V, W/X, Y/Z, AA/AB, BA/BB, CA: thirteen adversarial rounds of twelve, ten, ten, ten, ten, eight, ten, eight, ten (aimed at named files), eight, ten (two features meeting), ten and four whose authors were asked for changes\n"
+            "Changes to jawher/mow.cli seeded in seventeen rounds (A/B: two per property; C/D: a third round on thirteen\n"
+            "properties; E/F, G/H, J/K, L/M, N/P, Q/R, S/T, U/V, W/X, Y/Z, AA/AB, BA/BB, CA, CB: fourteen adversarial rounds of twelve, ten, ten, ten, ten, eight, ten, eight, ten (aimed at named files), eight, ten (two features meeting), ten, four and three whose authors were asked for changes\n"
             "that a generator of ordinary inputs would not meet, the later ones aimed at one named property each and told which corners earlier rounds had closed), each written by a sub-agent that was given only the\n"
             "property's text and a scratch worktree (nothing from /verif). Each directory holds `patch.diff` (apply with\n"
             "`git -C <copy of /repo> apply`), `demo_test.go` (a test that passes on the unchanged tree and fails with the\n"
@@ -40,7 +40,7 @@ with open(os.path.join(ROOT, "README.md"), "w") as f:
             "(2) runs the twenty quick checks of a copy of /verif against the scratch copy and records which report a\n"
             "violation, with a concrete failing input or only through a broken correspondence (`no-failing-input-found`).\n"
             "Nothing is ever applied to /repo. Regenerate this table with `python3 tools/seeded_table.py`; re-evaluate with\n"
-            "`sh tools/evalall.sh [name ...]`. Patches A/B were written against /repo at `5f37012`, C/D/E/F/G/H/J/K/L/M at `d74872d`, N/P at `a7f6599`, Q/R at `e102526`, S/T, U/V and W/X at `d9b1324`, Y/Z, AA/AB, BA/BB and CA at `6499c1f`; after the repair D8 (`a7f6599`) rewrote `options.try`, the five patches that touch it\n"
+            "`sh tools/evalall.sh [name ...]`. Patches A/B were written against /repo at `5f37012`, C/D/E/F/G/H/J/K/L/M at `d74872d`, N/P at `a7f6599`, Q/R at `e102526`, S/T, U/V and W/X at `d9b1324`, Y/Z, AA/AB, BA/BB, CA and CB at `6499c1f`; after the repair D8 (`a7f6599`) rewrote `options.try`, the five patches that touch it\n"
             "(C10-A, C10-C, C12-B — the same idea from three authors —, C12-C, C12-F) were re-based by hand, the originals are kept as `patch.d74872d.diff`; after D9, D10 and D11 ten more (C02-A, C02-D, C02-L, C03-A, C09-A, C13-A, C14-B, C19-B, C19-D, C19-Q) were re-based (`patch.asgiven.diff`).\n"
             "C20-Q was written against the tree before D11: there the unchanged library was itself non-deterministic (which is how D11 was found); on the repaired tree it still ties an option `-N` with an argument `N`.\n\n"
             "| change | file(s) | confirmed | caught with a concrete input by | caught only as a broken correspondence by | its own check says |\n"
